@@ -20,16 +20,22 @@ open Rare Rare.Expr Rare.Expr.Funcs.Range
 /-! ## Sub-contexts: `{0}`/`{1}` bound, keys from the enclosing match -/
 
 /-- Evaluating a stage inside the pooled `subContext{parent: ctx, vals: [v0, v1]}` is evaluating it
-    in `subCtx ctx v0 v1`: index 0/1 are the bound values, other (also negative) indices are empty,
-    every key look-up is answered by the enclosing context. -/
+    in `subCtx ctx v0 v1`: index 0/1 are the bound values, larger indices are empty, a negative index
+    (not an element index) and every key look-up are answered by the enclosing context. -/
 theorem sub_context_binding {α : Type} (ctx : Ctx) (v0 v1 : Bytes) (c : Comp α) :
     (c.withSub v0 v1).run ctx = c.run (subCtx ctx v0 v1) ∧
     (subCtx ctx v0 v1).getMatch 0 = v0 ∧ (subCtx ctx v0 v1).getMatch 1 = v1 ∧
-    (∀ i, i ≠ 0 → i ≠ 1 → (subCtx ctx v0 v1).getMatch i = []) ∧
+    (∀ i, 1 < i → (subCtx ctx v0 v1).getMatch i = []) ∧
+    (∀ i, i < 0 → (subCtx ctx v0 v1).getMatch i = ctx.getMatch i) ∧
     (∀ k, (subCtx ctx v0 v1).getKey k = ctx.getKey k) := by
-  refine ⟨withSub_run ctx v0 v1 c, rfl, rfl, ?_, fun _ => rfl⟩
-  intro i h0 h1
-  simp [subCtx, h0, h1]
+  refine ⟨withSub_run ctx v0 v1 c, rfl, rfl, ?_, ?_, fun _ => rfl⟩
+  · intro i h
+    have h1 : ¬ i < 0 := by omega
+    have h2 : i ≠ 0 := by omega
+    have h3 : i ≠ 1 := by omega
+    simp [subCtx, h1, h2, h3]
+  · intro i h
+    simp [subCtx, h]
 
 /-! ## The splitter -/
 
